@@ -528,6 +528,9 @@ func exec(op string) string {
 				err = w.t.BalTableReload(g, t)
 			}
 			if err != nil {
+				if st.kind == "I" && strings.Contains(err.Error(), "gslbInit") {
+					return "initfail"
+				}
 				return "err"
 			}
 			return "ok"
@@ -538,6 +541,10 @@ func exec(op string) string {
 				break
 			}
 			return status
+		}
+		if status == "initfail" {
+			out = append(out, status) // Init stopped before backendInit: the server would not start
+			break
 		}
 		tbl, gr := w.listing()
 		out = append(out, status+"#"+tbl+"#"+gr+"#"+w.probes())
